@@ -74,6 +74,9 @@ func fq(tok string) string {
 	if tok[0] == 'u' {
 		return "u.d" + tok[1:] + ".z.test."
 	}
+	if tok[0] == 'p' {
+		return "w" + tok[1:] + ".pz.test." // an owner of the signed proof zone (RFC 8198 synthesis)
+	}
 	return tok + ".z.test."
 }
 
@@ -98,6 +101,9 @@ func parseUp(s string) map[string]*specT {
 		sp := &specT{name: name, kind: f[0][0], ans: parseItems(f[1]), ns: parseItems(f[2])}
 		if sp.kind == 'c' {
 			sp.tgt = "n" + f[0][1:]
+			if f[0][1] == 'p' {
+				sp.tgt = f[0][1:] // alias onto a name of the proof zone
+			}
 		}
 		if f[3] != "-" {
 			v := vlib.AtoI64(f[3])
@@ -377,6 +383,7 @@ type recTok struct {
 	ns    bool
 	ttl   int64
 	mark  int
+	typ   uint16
 	fresh bool // relayed from the upstream answer of this very op (not from the cache)
 }
 
@@ -410,6 +417,10 @@ func markOf(rr dns.RR) int {
 		return int(r.Serial)
 	case *dns.RRSIG:
 		return int(r.KeyTag)
+	case *dns.NSEC:
+		if n := len(r.TypeBitMap); n > 0 && r.TypeBitMap[n-1] >= 1000 {
+			return int(r.TypeBitMap[n-1]) - 1000
+		}
 	case *dns.TXT:
 		if len(r.Txt) > 0 && strings.HasPrefix(r.Txt[0], "m") {
 			s, _, _ := strings.Cut(r.Txt[0][1:], "/")
@@ -428,6 +439,11 @@ func replyRecs(qtok string, m *dns.Msg) []recTok {
 			if strings.HasPrefix(o, "ns.") {
 				return o[3:]
 			}
+			if lo := strings.ToLower(owner); lo == "pz.test." {
+				return "sz"
+			} else if strings.HasSuffix(lo, ".pz.test.") && strings.HasPrefix(lo, "w") {
+				return "s" + strings.TrimSuffix(lo[1:], ".pz.test.")
+			}
 			if qtok[0] == 'u' {
 				return "d" + qtok[1:]
 			}
@@ -436,7 +452,7 @@ func replyRecs(qtok string, m *dns.Msg) []recTok {
 		return o
 	}
 	for _, rr := range m.Answer {
-		out = append(out, recTok{tok: tokOf(rr.Header().Name, false), ttl: int64(rr.Header().Ttl), mark: markOf(rr)})
+		out = append(out, recTok{tok: tokOf(rr.Header().Name, false), ttl: int64(rr.Header().Ttl), mark: markOf(rr), typ: rr.Header().Rrtype})
 	}
 	for _, sect := range [][]dns.RR{m.Ns, m.Extra} {
 		for _, rr := range sect {
@@ -447,7 +463,7 @@ func replyRecs(qtok string, m *dns.Msg) []recTok {
 			if qtok[0] == 'u' {
 				mk = -1
 			}
-			out = append(out, recTok{tok: tokOf(rr.Header().Name, true), ns: true, ttl: int64(rr.Header().Ttl), mark: mk})
+			out = append(out, recTok{tok: tokOf(rr.Header().Name, true), ns: true, ttl: int64(rr.Header().Ttl), mark: mk, typ: rr.Header().Rrtype})
 		}
 	}
 	return out
@@ -573,6 +589,9 @@ func (h *histT) originOf(r recTok) (*orec, bool) {
 	if r.fresh {
 		return nil, true
 	}
+	if r.tok[0] == 's' {
+		return h.origins[fmt.Sprintf("%s#%d", r.tok, r.mark)], false
+	}
 	if r.mark >= 0 {
 		return h.origins[fmt.Sprintf("%s#%d", r.tok, r.mark)], false
 	}
@@ -610,6 +629,27 @@ func (h *histT) judgeReply(qtok string, recs []recTok, freshCalls map[string]int
 	if qtok[0] == 'u' {
 		if o := h.cuts["d"+qtok[1:]]; o != nil {
 			holder = fmt.Sprintf("%s#cut%d", qtok, o.gen)
+		}
+	}
+	if qtok[0] == 'p' {
+		holder = qtok + "#synth"
+		// a synthesised denial is one composed answer: it inherits the
+		// shortest lifetime among the SOA currently cached for the zone and
+		// the proof RRsets it was built from — on every record
+		var least *orec
+		for _, r := range recs {
+			if o, _ := h.originOf(r); o != nil && (least == nil || o.admitV+o.life < least.admitV+least.life) {
+				least = o
+			}
+		}
+		if least != nil {
+			end := least.admitV + least.life
+			for _, r := range recs {
+				if h.V < end && r.ttl > end-h.V-1 {
+					note(fail("c/synth/shown-ttl-exceeds-shortest-piece/"+least.lim, "record of %s shown=%d, shortest piece (%s) has <%ds left", r.tok, r.ttl, least.lim, end-h.V))
+					break
+				}
+			}
 		}
 	}
 	order := chainOrder(recs)
@@ -746,7 +786,7 @@ func (h *histT) register(chs []change, script map[string]*specT, recs []recTok, 
 			cachedAns := cachedAnswerPieces(recs)
 			holderSeen := false
 			for _, t := range chainAfter(recs, c.k.tok) {
-				if t[0] != 'n' {
+				if t[0] != 'n' && t[0] != 's' {
 					continue
 				}
 				var origins []*orec
@@ -848,6 +888,8 @@ func execHist(f []string) vlib.Res {
 		return h.pfdone(f[2], f[3])
 	case "cutrec":
 		return h.cutrec(f[2], f[3], f[4])
+	case "prec":
+		return h.prec(f[2], f[3], f[4])
 	}
 	return vlib.Res{Impl: "bad-op"}
 }
@@ -1076,4 +1118,105 @@ func (h *histT) cutrec(k, itemS, leaseS string) vlib.Res {
 	h.marks++
 	h.cuts[tok] = &orec{gen: h.marks, admitV: h.V, life: life, lim: lim, lastShown: -1, mark: -1}
 	return vlib.Res{Impl: fmt.Sprintf("t exp=%d", got), Oracle: or, Tags: "nt,lim=" + lim}
+}
+
+
+// prec: `c prec <i> <s..,g..,p..,g..> <lease|->` admits an RFC 8198 NODATA
+// proof for owner w<i>.pz.test. (SOA + RRSIG, NSEC + RRSIG) through
+// Store.RecordDenialProof.  Every admission replaces the zone's one SOA
+// entry; the NSEC entry of owner i is its own piece.
+func (h *histT) prec(k, itemS, leaseS string) vlib.Res {
+	h.j++
+	items := parseItems(itemS)
+	h.marks++
+	mark := 1 + h.marks%250
+	owner := "w" + k + ".pz.test."
+	waitRoom()
+	h.sync()
+	base := time.Now().Unix()
+	proof := new(dns.Msg)
+	proof.SetQuestion(owner, dns.TypeA)
+	proof.Response = true
+	proof.AuthenticatedData = true
+	ng := 0
+	for _, it := range items {
+		switch it.kind {
+		case 's':
+			so := mkSOA("pz.test.", it.ttl, uint32(it.a))
+			so.Serial = uint32(mark)
+			proof.Ns = append(proof.Ns, so)
+		case 'p':
+			proof.Ns = append(proof.Ns, &dns.NSEC{Hdr: dns.RR_Header{Name: owner, Rrtype: dns.TypeNSEC, Class: dns.ClassINET, Ttl: it.ttl},
+				NextDomain: "w" + k + "z.pz.test.", TypeBitMap: []uint16{dns.TypeAAAA, dns.TypeRRSIG, dns.TypeNSEC, uint16(1000 + mark)}})
+		case 'g':
+			o, cov := "pz.test.", dns.TypeSOA
+			if ng > 0 {
+				o, cov = owner, dns.TypeNSEC
+			}
+			ng++
+			sg := mkSig(o, it.ttl, sigExp(base, it.b))
+			sg.OrigTtl = uint32(it.a)
+			sg.TypeCovered = cov
+			sg.SignerName = "pz.test."
+			sg.KeyTag = uint16(mark)
+			sg.Labels = uint8(dns.CountLabel(o))
+			proof.Ns = append(proof.Ns, sg)
+		}
+	}
+	var cu time.Time
+	if leaseS != "-" {
+		cu = h.syncAt.Add(time.Duration(vlib.AtoI64(leaseS)) * time.Second)
+	}
+	ok := cache.VerifC04Store(h.c).RecordDenialProof(proof, "pz.test.", middleware.ValidatedNegativeProofNSEC, cu)
+	if !ok {
+		return vlib.Res{Impl: "f", Oracle: "ok", Tags: "nt"}
+	}
+	h.settle(true)
+	soaE, nsecE := cache.VerifC04ProofExpiries(h.c, "pz.test.", owner)
+	gotS, gotN := h.ceilRel(h.virt(soaE)-h.vnow()), h.ceilRel(h.virt(nsecE)-h.vnow())
+	// oracle: no floor; the SOA piece outlives no component of the SOA RRset
+	// and the lease, the NSEC piece none of both RRsets and the lease
+	lifeS, limS := int64(86400), "cap-24h"
+	lifeN, limN := int64(86400), "cap-24h"
+	ng = 0
+	for _, it := range items {
+		forSOA := it.kind == 's' || (it.kind == 'g' && ng == 0)
+		take := func(v int64, what string) {
+			if forSOA && v < lifeS {
+				lifeS, limS = v, what
+			}
+			if v < lifeN {
+				lifeN, limN = v, what
+			}
+		}
+		take(int64(it.ttl), "ttl")
+		switch it.kind {
+		case 's':
+			take(it.a, "soa-minimum")
+		case 'g':
+			take(it.a, "rrsig-original-ttl")
+			take(it.b, "rrsig")
+			ng++
+		}
+	}
+	if leaseS != "-" {
+		l := vlib.AtoI64(leaseS)
+		if l < lifeS {
+			lifeS, limS = l, "lease"
+		}
+		if l < lifeN {
+			lifeN, limN = l, "lease"
+		}
+	}
+	or := "ok"
+	if gotS > lifeS {
+		or = fail("c/prec/soa-piece-outlives-"+limS, "stored=%ds permitted=%ds", gotS, lifeS)
+	} else if gotN > lifeN {
+		or = fail("c/prec/proof-piece-outlives-"+limN, "stored=%ds permitted=%ds", gotN, lifeN)
+	}
+	so := &orec{gen: h.marks, admitV: h.V, life: lifeS, lim: "soa-" + limS, nsLife: lifeS, nsLim: "soa-" + limS, lastShown: -1, mark: mark}
+	no := &orec{gen: h.marks, admitV: h.V, life: lifeN, lim: "proof-" + limN, nsLife: lifeN, nsLim: "proof-" + limN, lastShown: -1, mark: mark}
+	h.origins[fmt.Sprintf("sz#%d", mark)] = so
+	h.origins[fmt.Sprintf("s%s#%d", k, mark)] = no
+	return vlib.Res{Impl: fmt.Sprintf("t soa=%d nsec=%d", gotS, gotN), Oracle: or, Tags: "nt,lim=" + limS}
 }
